@@ -68,6 +68,8 @@ pub struct TransportOracle {
     /// (caller, peer) -> number of submissions at the time of the caller's first disconnect call,
     /// and whether that call was the graceful disconnect()
     disc_calls: BTreeMap<(usize, usize), (usize, bool)>,
+    /// clients that have reported Connect since they were created
+    connected_clients: std::collections::BTreeSet<usize>,
     /// channel on which packets too short to carry a header travel
     short_ch: u8,
     hc_owner: BTreeMap<u64, (usize, Option<usize>)>,
@@ -97,6 +99,7 @@ impl TransportOracle {
             old_generation_deliveries: 0,
             last_tx: BTreeMap::new(),
             disc_calls: BTreeMap::new(),
+            connected_clients: Default::default(),
             short_ch: plan.param("short_ch", 0.0) as u8,
             hc_owner: BTreeMap::new(),
             deliveries: 0,
@@ -143,6 +146,7 @@ impl Oracle for TransportOracle {
             Rec::Call { op: Op::Create { ep }, skipped: false, .. } => {
                 // a new incarnation of an endpoint starts fresh sequences in both directions
                 let ep = *ep;
+                self.connected_clients.remove(&ep);
                 let keys: Vec<(usize, usize)> = self.dirs.keys().filter(|(a, b)| *a == ep || *b == ep).cloned().collect();
                 let world_b = !matches!(cx.plan.endpoints[ep].kind, EndpointKind::Hc { .. });
                 for k in keys {
@@ -161,6 +165,9 @@ impl Oracle for TransportOracle {
                         self.old_dirs.insert(k, d);
                     }
                 }
+            }
+            Rec::Event { ep, peer: None, ev: AppEvent::Connect, .. } => {
+                self.connected_clients.insert(*ep);
             }
             Rec::Event { ep, peer: Some(peer), ev: AppEvent::Connect, .. } => {
                 // a new server-side connection: what the server queued on the previous one (for
@@ -182,6 +189,13 @@ impl Oracle for TransportOracle {
             }
             Rec::Call { op: Op::Disconnect { ep, to } | Op::DisconnectNow { ep, to }, skipped: false, .. } => {
                 let graceful = matches!(rec, Rec::Call { op: Op::Disconnect { .. }, .. });
+                // a client that gives up while its handshake is still pending abandons what it
+                // had queued behind it: no connection ever existed
+                if matches!(cx.plan.endpoints[*ep].kind, EndpointKind::Client { .. }) && !self.connected_clients.contains(ep) {
+                    if let Some(dst) = peer_of(cx.plan, *ep) {
+                        self.dirs.entry((*ep, dst)).or_default().ended = true;
+                    }
+                }
                 if let Some(dst) = to.or_else(|| peer_of(cx.plan, *ep)) {
                     let n = self.dirs.get(&(*ep, dst)).map_or(0, |d| d.subs.len());
                     self.disc_calls.entry((*ep, dst)).or_insert((n, graceful));
